@@ -153,7 +153,8 @@ def cases(tier, seed):
             seen.add(dig)
             out.append(dict(scenario=name, k=lab["k"], point=lab["point"], op=lab["op"],
                             path=lab["path"], torn=lab.get("bytes"), fsdigest=dig,
-                            committed=dig in committed, n_events=len(events)))
+                            committed=dig in committed, n_events=len(events),
+                            double=(tier == "thorough" and name in ("mgvi3", "switch3"))))
     return out
 
 
@@ -223,15 +224,46 @@ def run(case):
         if stray:
             return bad("stray files left after a completed resumed run: %s (%s)" % (stray, window),
                        finding_key="stray-files|%s" % window)
+        second = 0
+        if case.get("double"):
+            # ---- second crash: record the resumed run started from this crash state, crash it at every point
+            import sys
+            okl = sys.modules["nifty.re.optimize_kl"]
+            shutil.rmtree(odir, ignore_errors=True)
+            if fs:
+                fsfault.materialise(fs, odir)
+            rec = fsfault.Recorder(odir, module_patches=[(okl, "makedirs", "makedirs")])
+            with rec:
+                _scenario_run(case["scenario"], odir, resume=True)
+            seen2 = set()
+            for lab2, fs2 in fsfault.crash_states(rec.events, initial=fs):
+                dig2 = fsfault.fs_digest(fs2)
+                if dig2 in seen2:
+                    continue
+                seen2.add(dig2)
+                shutil.rmtree(odir, ignore_errors=True)
+                if fs2:
+                    fsfault.materialise(fs2, odir)
+                w2 = "%s(%s)" % (lab2["point"], lab2["path"])
+                try:
+                    got2 = _scenario_run(case["scenario"], odir, resume=True)
+                except Exception as e:
+                    return bad("resume impossible after a second crash during the resumed run (first: %s, second: %s): %s: %s"
+                               % (window, w2, type(e).__name__, str(e)[:150]),
+                               finding_key="double|resume-raises|%s|%s" % (w2, type(e).__name__))
+                if got2 != ref:
+                    return bad("result differs after a second crash during the resumed run (first: %s, second: %s)" % (window, w2),
+                               finding_key="double|resume-differs|%s" % w2)
+                second += 1
     finally:
         shutil.rmtree(tmp, ignore_errors=True)
     return ok(nontrivial=not case["committed"], outcome="resumed-ok|" + window.split(":")[0].split("(")[0],
-              stats=dict(states=1))
+              stats=dict(states=1 + second, second_level_states=second))
 
 
 def finish(run):
     d = _WORK.get("dir")
     if d:
         shutil.rmtree(d, ignore_errors=True)
-    digs = set()
-    return dict(crash_states=run.evaluations)
+    return dict(crash_states=run.evaluations, states=int(run.extra.get("states", 0)),
+                second_level_crash_states=int(run.extra.get("second_level_states", 0)))
